@@ -93,3 +93,24 @@ func VerifClauses(vm *VM, name string, arity int) ([]VerifClause, bool) {
 	}
 	return out, true
 }
+
+// VerifEvaluable names one evaluable functor known to eval.
+type VerifEvaluable struct {
+	Name  string
+	Arity int
+}
+
+// VerifEvaluables lists the evaluable functors (constants, unary, binary) from the dispatch tables.
+func VerifEvaluables() []VerifEvaluable {
+	var es []VerifEvaluable
+	for a := range constants {
+		es = append(es, VerifEvaluable{a.String(), 0})
+	}
+	for a := range unaryFunctors {
+		es = append(es, VerifEvaluable{a.String(), 1})
+	}
+	for a := range binaryFunctors {
+		es = append(es, VerifEvaluable{a.String(), 2})
+	}
+	return es
+}
